@@ -74,6 +74,38 @@ def case_point(name):
                     bad = (v, nz, [float(symx.model_value(mm, p))
                                    for p in pos] if mm is not None else None)
                     break
+                # support: an edge carries a contribution only if the point
+                # lies in the support of its (tri-linear) hat function
+                for idx in np.ndindex(*parts[d].shape):
+                    x = parts[d][idx]
+                    if isinstance(x, Q) and x.c is not None and x.c == 0:
+                        continue
+                    if not isinstance(x, Q) and x == 0:
+                        continue
+                    conj = []
+                    for k in range(3):
+                        nn = [Fraction(float(v_)) for v_ in nodes[k]]
+                        if k == d:      # cell centres along the edge
+                            cc = [(a_+b_)/2 for a_, b_ in zip(nn[:-1],
+                                                              nn[1:])]
+                            # (in the outermost half cells the code
+                            # extrapolates from the two nearest centres)
+                            lo = cc[idx[k]-1] if idx[k] > 1 else nn[0]
+                            hi = cc[idx[k]+1] if idx[k]+2 < len(cc) \
+                                else nn[-1]
+                        else:           # nodes across
+                            lo = nn[max(idx[k]-1, 0)]
+                            hi = nn[min(idx[k]+1, len(nn)-1)]
+                        conj.append(z3.And(pos[k].t >= lo, pos[k].t <= hi))
+                    v2, m2 = c.valid(z3.Or(z3.And(*conj), symx.qt(x) == 0),
+                                     label='support')
+                    if v2 != 'held':
+                        bad = (v2, 99, [float(symx.model_value(m2, p))
+                                        for p in pos] if m2 is not None
+                               else None)
+                        break
+                if bad:
+                    break
             if bad:
                 break
     except Inconclusive as e:
@@ -87,7 +119,8 @@ def case_point(name):
                    cex=dict(kind='point', grid=name, pos=bad[2]))]
     return [ob(f"all {stats['paths']} cell classes: each component sums to "
                f"(cos az cos el, sin az cos el, sin el); <= 8 edges per "
-               f"component", 'held', group=grp, cls='POLY-ID',
+               f"component, each inside the hat support that contains the "
+               f"point", 'held', group=grp, cls='POLY-ID',
                seconds=time.time()-t0),
             ob("twin: several cell classes", 'twin_sat' if stats['paths'] > 1
                else 'twin_unsat', group=grp, cls='POLY-ID',
@@ -563,14 +596,31 @@ def replay(cex):
         pos = cex.get('pos')
         if pos is None:
             return False, 'no witness'
-        worst = 0.0
+        worst = far = 0.0
         for az, el in ((0., 0.), (33., -20.), (90., 90.), (-120., 45.)):
             vf = emg3d.fields._point_vector(grid, (*pos, az, el))
             rot = emg3d.electrodes.rotation(az, el)
             for d, part in enumerate([vf.fx, vf.fy, vf.fz]):
                 worst = max(worst, abs(part.sum()-rot[d]))
-        return worst > 1e-9, (f"real point source at {pos}: |component sums"
-                              f" - unit direction| = {worst:.2e}")
+                # support within the hat functions that contain the point
+                nodes = [grid.nodes_x, grid.nodes_y, grid.nodes_z]
+                for idx in zip(*np.nonzero(part)):
+                    for k in range(3):
+                        nn = nodes[k]
+                        if k == d:
+                            cc = (nn[1:]+nn[:-1])/2
+                            lo = cc[idx[k]-1] if idx[k] > 1 else nn[0]
+                            hi = cc[idx[k]+1] if idx[k]+2 < cc.size \
+                                else nn[-1]
+                        else:
+                            lo = nn[max(idx[k]-1, 0)]
+                            hi = nn[min(idx[k]+1, nn.size-1)]
+                        if not (lo-1e-9 <= pos[k] <= hi+1e-9):
+                            far = max(far, abs(part[idx]))
+        return (worst > 1e-9 or far > 1e-12), (
+            f"real point source at {pos}: |component sums - unit direction| "
+            f"= {worst:.2e}; largest contribution on an edge whose hat "
+            f"function does not contain the point: {far:.2e}")
     if kind == 'dipole':
         h, o = GRIDS[cex['grid']]
         grid = emg3d.TensorMesh([np.array(x, dtype=float) for x in h], o)
